@@ -94,6 +94,11 @@ def corpus_cases():
     return [PCase(c.cid, c.drv, c.args, c.kind, c.nontrivial) for c in corpus("C19")]
 
 
+def builtin_default():
+    from . import c20
+    return c20.default_scheme()
+
+
 def gen_cases(tier, seed):
     r = rng(seed, "C19")
     cs = []
@@ -112,6 +117,10 @@ def gen_cases(tier, seed):
         for i in range(nsess):
             x = r.random()
             srv = "-" if x < 0.2 else hx(r.choice(pool[1:] if x < 0.7 else pool))
+            if not use_default and r.random() < 0.2:
+                # the server runs the BUILT-IN default scheme, byte for byte, and the client was configured with another one:
+                # a push like any other (seed C19-5)
+                srv = hx(builtin_default())
             ops.append("N:" + srv)
             ops.append("K:%d" % i)
             for _ in range(r.choice([0, 1, 2, 3, 5])):
